@@ -94,6 +94,7 @@ type Tree struct {
 	Ifaces   []*Iface
 	Locals   Locals
 	OtherPkg string // name of an existing sibling package usable as -pkg destination (directory SrcDir/<name>)
+	ExtraDecls string // additional declarations appended to the source package's types.go
 	NameMismatch bool // some dependency's package name differs from what goimports assumes from its path
 }
 
@@ -452,7 +453,7 @@ func (b *builder) render() {
 	fmt.Fprintf(&ty, "type %s interface{ %s(p %s) error }\n\n", l.Emb, l.EmbMethod, l.Struct)
 	fmt.Fprintf(&ty, "type %s[T any] interface{ Base(x T) T }\n\n", l.GenBase)
 	fmt.Fprintf(&ty, "type %s[K comparable, V any] interface {\n\tLoad(k K) (V, bool)\n\tStore(k K, v V) error\n}\n", l.GenStore)
-	t.Files[t.SrcDir+"/types.go"] = ty.String()
+	t.Files[t.SrcDir+"/types.go"] = ty.String() + "\n" + t.ExtraDecls
 
 	nfiles := 1
 	for _, i := range t.Ifaces {
